@@ -49,7 +49,11 @@ func jsonTypeToXValue(data []byte, valType jsonparser.ValueType) XValue {
 	case jsonparser.Array:
 		return jsonToArray(data)
 	case jsonparser.Object:
-		return jsonToObject(data)
+		obj := jsonToObject(data)
+
+		// a __default__ property in the JSON becomes the object's default, so marshal it back as one
+		obj.SetMarshalOptions(true, true)
+		return obj
 	}
 
 	return NewXError(fmt.Errorf("unknown JSON parsing error"))
